@@ -185,7 +185,7 @@ func c14Save(variant, sizeS, seedS, probe string) []string {
 		finalOK = err != nil && vc14.FileSum(dest) == oldSum
 	}
 
-	return []string{vutil.B(committed), strconv.Itoa(len(after)), vutil.B(finalOK), oldSum, vc14.FileSum(dest)}
+	return []string{vutil.B(committed), strconv.Itoa(len(expected)), vutil.B(finalOK), oldSum, vc14.FileSum(dest)}
 }
 
 // ---------------------------------------------------------------- parent
